@@ -302,6 +302,20 @@ def element_filter(atom: ast.AST, bound: Set[str]) -> Optional[str]:
     return src(atom)[:70]
 
 
+def _mutates_param(h: Func, params: List[str]) -> bool:
+    """h extends one of the named parameters in place (append / extend / += ..) or hands it on to itself"""
+    if not isinstance(h.node, (ast.FunctionDef, ast.AsyncFunctionDef)):
+        return False
+    for n in walk_no_nested(h.node):
+        if isinstance(n, ast.AugAssign) and isinstance(n.target, ast.Name) and n.target.id in params:
+            return True
+        if isinstance(n, ast.Call) and isinstance(n.func, ast.Attribute) and isinstance(n.func.value, ast.Name) \
+                and n.func.value.id in params and n.func.attr in ('append', 'extend', 'add', 'update', 'insert', 'appendleft',
+                                                                    'remove', 'pop', 'clear', 'sort', 'reverse', 'discard'):
+            return True
+    return False
+
+
 class RelEval:
     """relation-path evaluation of the task collections built inside one function, relative to its task parameter.
 
@@ -506,6 +520,71 @@ class RelEval:
         finally:
             RelEval._HELPER_BUSY.discard(h.qual)
 
+    def acc_helper_paths(self, h: Func, elem_p: str, acc_p: str, node) -> Paths:
+        """what the accumulator-passing helper `h(elem, acc)` appends to the list it is handed, as relation paths from its element
+        parameter.  The list parameter may only be appended to / extended and handed on to h itself at the same position; a
+        recursive helper must come out as the leaf collection under the assumption that its recursive call collects the leaves
+        (the same induction as for list-returning leaf helpers)."""
+        if h.qual in RelEval._HELPER_BUSY:
+            raise Unknown(node, f"accumulator helper {h.name} is being evaluated already")
+        RelEval._HELPER_BUSY.add(h.qual)
+        try:
+            sub = RelEval(self.ctx, h, elem_p, self.leaf_helper_of)
+            cfg = cfg_of(h)
+            resolve = getattr(self.leaf_helper_of, 'resolve', None)
+            hparams = [p for p in h.params if p != h.self_name and p != 'cls']
+            total: Paths = {}
+            recursive = False
+            accounted = set()
+            for n in walk_no_nested(h.node):
+                if isinstance(n, ast.Return) and n.value is not None:
+                    if isinstance(n.value, ast.Name) and n.value.id == acc_p:
+                        accounted.add(id(n.value))
+                    elif not (isinstance(n.value, ast.Constant) and n.value.value is None):
+                        raise Unknown(node, f"accumulator helper {h.name} also returns a value")
+                elif isinstance(n, ast.AugAssign) and isinstance(n.target, ast.Name) and n.target.id == acc_p:
+                    if not isinstance(n.op, ast.Add):
+                        raise Unknown(node, f"{h.name}: `{src(n)[:60]}` is not an extension of the list")
+                    accounted.add(id(n.target))
+                    total = _union(total, sub.contribution(cfg.node_of(n), n.value, None))
+                elif isinstance(n, ast.Call):
+                    fn = n.func
+                    if isinstance(fn, ast.Attribute) and isinstance(fn.value, ast.Name) and fn.value.id == acc_p:
+                        if fn.attr not in ('append', 'extend', 'add', 'update') or len(n.args) != 1 or n.keywords:
+                            raise Unknown(node, f"{h.name}: `{src(n)[:60]}` is not an append / extend of the list")
+                        accounted.add(id(fn.value))
+                        total = _union(total, sub.contribution(cfg.node_containing(n), n.args[0], None))
+                        continue
+                    idx = [i for i, a in enumerate(n.args) if isinstance(a, ast.Name) and a.id == acc_p]
+                    if idx:
+                        t = resolve(n, h) if resolve else None
+                        if t is not h or len(idx) != 1 or n.keywords or len(n.args) != 2 or len(hparams) != 2 \
+                                or hparams[idx[0]] != acc_p:
+                            raise Unknown(node, f"{h.name}: the list is handed on by `{src(n)[:60]}`, which the rule does not follow")
+                        accounted.add(id(n.args[idx[0]]))
+                        recursive = True
+                        total = _union(total, _ext(sub.contribution(cfg.node_containing(n), n.args[1 - idx[0]], None), 'leaves'))
+            for n in walk_no_nested(h.node):
+                if isinstance(n, ast.Name) and n.id == acc_p and id(n) not in accounted:
+                    raise Unknown(node, f"{h.name}: the list parameter `{acc_p}` is also used in a way the rule does not follow "
+                                        f"(line {getattr(n, 'lineno', '?')})")
+            got = normalise(total)
+            if not got:
+                raise Unknown(node, f"accumulator helper {h.name} appends nothing the rule understands")
+            cache = getattr(self.leaf_helper_of, 'cache', None)
+            if recursive:
+                uncond = all(unconditional(c) for c in got.values())
+                if uncond and set(got) in ({('leaf?',), ('children', 'leaves')}, {('leaves',)}):
+                    if cache is not None:
+                        cache[h.qual] = (True, ', '.join(path_text(k, elem_p) for k in sorted(got)) + f" appended to `{acc_p}`")
+                    return {('leaves',): list(UNCOND)}
+                raise Unknown(node, f"recursive accumulator helper {h.name} collects "
+                                    f"{', '.join(path_text(k, elem_p) for k in sorted(got))}: not the leaves below its argument in a "
+                                    f"form the rule can verify")
+            return got
+        finally:
+            RelEval._HELPER_BUSY.discard(h.qual)
+
     # ---- local collection variables
     def var(self, name: str, at, node) -> Paths:
         if name in self._busy:
@@ -564,6 +643,38 @@ class RelEval:
         out: Paths = dict(base)
         for cn, expr, single in contribs:
             out = _union(out, self.contribution(cn, expr, at, single))
+        # accumulator passing: `self.__collect_leaves(p, name)` as a statement, the helper appends to the list it is handed
+        for n in walk_no_nested(self.f.node):
+            if not (isinstance(n, ast.Expr) and isinstance(n.value, ast.Call)):
+                continue
+            c = n.value
+            idx = [i for i, a in enumerate(c.args) if isinstance(a, ast.Name) and a.id == name]
+            if not idx and not any(isinstance(k.value, ast.Name) and k.value.id == name for k in c.keywords):
+                continue
+            cn = self.cfg.node_of(n)
+            if cn is None or not self.cfg.is_reachable(cn) or cn is at:
+                continue
+            if at is not None and not self.cfg.can_reach(cn, at):
+                continue
+            resolve = getattr(self.leaf_helper_of, 'resolve', None)
+            h = resolve(c, self.f) if resolve else None
+            if h is None or h.module is not self.f.module or isinstance(h.node, ast.Lambda):
+                continue            # not a function of the calculator's module (logging, len, ..): reads the list only
+            hparams = [p for p in h.params if p != h.self_name and p != 'cls']
+            if not _mutates_param(h, hparams):
+                continue
+            if at is not None and self.cfg.can_reach(at, cn):
+                raise Unknown(n, f"`{name}` is extended (by `{src(c.func)}`) while it is being read")
+            if h.qual == self.f.qual or len(idx) != 1 or c.keywords or len(hparams) != 2 or len(c.args) != 2 \
+                    or any(isinstance(a, ast.Starred) for a in c.args):
+                raise Unknown(n, f"`{name}` is handed to `{src(c.func)}`, which fills it in a way the rule does not follow")
+            acc_p, elem_p = hparams[idx[0]], hparams[1 - idx[0]]
+            hp = self.acc_helper_paths(h, elem_p, acc_p, n)
+            base_p = self.contribution(cn, c.args[1 - idx[0]], at)
+            for k1, c1 in base_p.items():
+                for k2, c2 in hp.items():
+                    both = list(UNCOND) if unconditional(c1) and unconditional(c2) else [x | y for x in c1 for y in c2]
+                    out = _union(out, {k1 + k2: both})
         if closure:
             out = _union(out, _ext(out, 'all_parents'))
         return out
